@@ -97,6 +97,8 @@ instance : FAbs XQ := ⟨fun a => match a with
   | fin q => fin (if q < 0 then -q else q) | nzero => fin 0 | ninf => pinf | x => x⟩
 instance : FSignum XQ := ⟨fun a => match a with
   | nan => nan | a => if a.signNeg then fin (-1) else fin 1⟩
+instance : FToI32 XQ := ⟨fun a => match a with
+  | fin q => truncI32 q | nzero => 0 | pinf => 2147483647 | ninf => -2147483648 | nan => 0⟩
 instance : OfInt XQ := ⟨fun n => fin (n : Rat)⟩
 
 def ofRat (q : Rat) : XQ := fin q
